@@ -23,6 +23,8 @@ from .common import Rng
 # member names: plain ones and some that need an alias on the wire
 PLAIN_NAMES = ["a", "b", "c", "d", "e", "f", "g", "h", "item", "count", "name", "value", "kind", "size", "tags", "meta"]
 ALIAS_NAMES = ["kebab-name", "class", "with space", "CamelCase", "x.y", "1st"]
+# names the field-name resolver changes: not an identifier, a keyword, (with --snake-case-field) camel case
+RENAMED_NAMES = ["first-name", "class", "order id", "1st", "x.y", "import", "OrderId", "CamelCase", "kebab-name"]
 DEF_NAMES = ["Pos", "Node", "Pet", "Cat", "Dog", "Color", "Amount", "Label", "Items", "Base", "Extra"]
 # strings never look like numbers or booleans (no lax str→int / str→bool coercion can apply)
 LETTERS = "qzkwv"
@@ -397,6 +399,11 @@ class DocGen:
             parts.append(self.object_ref(depth))
         inline = self.object_(depth + 1)
         inline.pop("additionalProperties", None)
+        if self.cfg.allof_own_required and self.cfg.alias_names and r.chance(1, 2):
+            # members whose JSON name is not their Python name
+            for nm in r.sample(RENAMED_NAMES, r.range(1, 2)):
+                inline["properties"].setdefault(nm, self.scalar() if r.chance(3, 4) else self.enum())
+            self.features.add("alias")
         # members of the parts must not clash (a clash is an override, a different topic)
         used: set[str] = set()
         for p in parts:
@@ -418,12 +425,25 @@ class DocGen:
             inline.pop("required")
         if inline["properties"]:
             parts.append(inline)
-        if r.chance(1, 3) and used:
+        out: dict[str, Any] = {"allOf": parts}
+        own = list(inline["properties"])
+        if self.cfg.allof_own_required and own and r.chance(1, 2):
+            # allOf-level `required` naming members the class declares itself (renamed ones included)
+            names = r.sample(own, r.range(1, min(3, len(own))))
+            if r.chance(3, 4):
+                parts.append({"required": names})
+                self.features.add("allOf_required_own")
+            else:
+                out["required"] = names  # `required` next to `allOf`
+                self.features.add("allOf_required_sibling")
+            if any(x in RENAMED_NAMES for x in names):
+                self.features.add("allOf_required_renamed")
+        elif r.chance(1, 3) and used:
             # allOf-level `required` naming a member declared by a referenced part
             cand = sorted(used)
             parts.append({"required": [r.choice(cand)]})
             self.features.add("allOf_required")
-        return {"allOf": parts}
+        return out
 
     def member(self, depth: int) -> dict:
         r = self.rng
@@ -677,6 +697,22 @@ def disc_const_tag(doc: dict) -> bool:
     return found
 
 
+def allof_required_const(doc: Any) -> bool:
+    """an allOf whose property-less member `{"required": [...]}` names a `const` member declared inline"""
+    if isinstance(doc, list):
+        return any(allof_required_const(x) for x in doc)
+    if not isinstance(doc, dict):
+        return False
+    parts = doc.get("allOf")
+    if isinstance(parts, list):
+        bare = [n for p in parts if isinstance(p, dict) and set(p) == {"required"} for n in p["required"]]
+        for p in parts:
+            if isinstance(p, dict) and isinstance(p.get("properties"), dict):
+                if any(isinstance(ps, dict) and "const" in ps and n in bare for n, ps in p["properties"].items()):
+                    return True
+    return any(allof_required_const(v) for v in doc.values())
+
+
 def undeclared_members(doc: dict, s: Any, v: Any, depth: int = 0) -> set:
     """how `additionalProperties` is written ("absent" / "true") at the objects of `v` that carry a member
     their schema does not declare"""
@@ -860,7 +896,10 @@ def merge_all_of(doc: dict, s: dict) -> dict:
     ap = None
     from_ref: dict[str, bool] = {}  # member -> declared by a $ref part
     own_req: dict[str, bool] = {}  # member -> required by the part that declares it
-    for part in [{k: v for k, v in s.items() if k != "allOf"}, *s.get("allOf", [])]:
+    bare_req: list = []  # names listed by a property-less part `{"required": [...]}`
+    for idx, part in enumerate([{k: v for k, v in s.items() if k != "allOf"}, *s.get("allOf", [])]):
+        if idx > 0 and isinstance(part, dict) and set(part) == {"required"}:
+            bare_req += list(part["required"])
         p = resolve(doc, part)
         if "allOf" in p:
             p = merge_all_of(doc, p)
@@ -872,7 +911,7 @@ def merge_all_of(doc: dict, s: dict) -> dict:
         if "additionalProperties" in p:
             ap = p["additionalProperties"]
     out: dict = {"type": "object", "properties": props}
-    inherited = [nm for nm in req if from_ref.get(nm) and not own_req.get(nm)]
+    inherited = [nm for nm in bare_req if from_ref.get(nm) and not own_req.get(nm)]
     if inherited:
         # required only by an allOf-level `required`, declared by a referenced part
         out["x-allof-inherited-required"] = inherited
